@@ -15,33 +15,33 @@ From PyFS Require Import Conc.Atomic.
 
 (* ---- small facts *)
 
-Lemma upd_same : forall (A : Type) (p : nat -> A) i v, upd p i v i = v.
+Lemma upd_same : forall {A : Type} (p : nat -> A) i v, upd p i v i = v.
 Proof. intros. unfold upd. rewrite Nat.eqb_refl. reflexivity. Qed.
 
-Lemma upd_other : forall (A : Type) (p : nat -> A) i j v, j <> i -> upd p i v j = p j.
+Lemma upd_other : forall {A : Type} (p : nat -> A) i j v, j <> i -> upd p i v j = p j.
 Proof.
   intros. unfold upd. destruct (Nat.eqb j i) eqn:E.
   - apply Nat.eqb_eq in E. contradiction.
   - reflexivity.
 Qed.
 
-Lemma step_nil : forall G L i (c : config G L), fst (snd c i) = [] -> step i c = c.
+Lemma step_nil : forall {G L : Type} i (c : config G L), fst (snd c i) = [] -> step i c = c.
 Proof. intros. unfold step. rewrite H. reflexivity. Qed.
 
-Lemma step_cons : forall G L i (c : config G L) a k,
+Lemma step_cons : forall {G L : Type} i (c : config G L) a k,
     fst (snd c i) = a :: k ->
     step i c = (fst (exec_action a (fst c) (snd (snd c i))),
                 upd (snd c) i (k, snd (exec_action a (fst c) (snd (snd c i))))).
 Proof. intros. unfold step. rewrite H. reflexivity. Qed.
 
-Lemma run_cons : forall G L i s (c : config G L), run (i :: s) c = run s (step i c).
+Lemma run_cons : forall {G L : Type} i s (c : config G L), run (i :: s) c = run s (step i c).
 Proof. reflexivity. Qed.
 
-Lemma seq_run_cons : forall G L i o (c : config G L),
+Lemma seq_run_cons : forall {G L : Type} i o (c : config G L),
     seq_run (i :: o) c = seq_run o (seq_step i c).
 Proof. reflexivity. Qed.
 
-Lemma complete_locals : forall G L (k : list (action G L)) g l,
+Lemma complete_locals : forall {G L : Type} (k : list (action G L)) g l,
     count_atomic k = 0 -> complete k g l = (g, locals_only k l).
 Proof.
   induction k as [|a k IH]; intros g l H.
@@ -56,7 +56,7 @@ Qed.
 Definition teq {G L} (t t' : tstate G L) : Prop :=
   forall g, complete (fst t) g (snd t) = complete (fst t') g (snd t').
 
-Lemma seq_run_teq : forall G L (order : list nat) (g : G) (p p' : pool G L),
+Lemma seq_run_teq : forall {G L : Type} (order : list nat) (g : G) (p p' : pool G L),
     (forall j, teq (p j) (p' j)) ->
     fst (seq_run order (g, p)) = fst (seq_run order (g, p')) /\
     forall j,
@@ -83,23 +83,25 @@ Proof.
     + intros Hin. destruct (in_dec Nat.eq_dec j o) as [Hjo|Hjo].
       * apply IHa. exact Hjo.
       * destruct Hin as [Heq|Hin]; [|contradiction].
-        subst j. destruct (IHb Hjo) as [Ea Eb]. rewrite Ea, Eb.
-        rewrite !upd_same. reflexivity.
+        subst j. destruct (IHb Hjo) as [Ea Eb].
+        rewrite upd_same in Ea, Eb.
+        etransitivity; [exact Ea|]. symmetry. exact Eb.
     + intros Hn.
       assert (Hne : j <> i) by (intros ->; apply Hn; left; reflexivity).
       assert (Hjo : ~ In j o) by (intros X; apply Hn; right; exact X).
-      destruct (IHb Hjo) as [Ea Eb]. rewrite Ea, Eb.
-      rewrite !upd_other by assumption. split; reflexivity.
+      destruct (IHb Hjo) as [Ea Eb].
+      rewrite upd_other in Ea, Eb by assumption.
+      split; [exact Ea|exact Eb].
 Qed.
 
-Lemma teq_refl : forall G L (t : tstate G L), teq t t.
+Lemma teq_refl : forall {G L : Type} (t : tstate G L), teq t t.
 Proof. intros G L t g. reflexivity. Qed.
 
-Lemma seq_run_untouched : forall G L (order : list nat) (c : config G L) j,
+Lemma seq_run_untouched : forall {G L : Type} (order : list nat) (c : config G L) j,
     ~ In j order -> snd (seq_run order c) j = snd c j.
 Proof.
   intros G L order [g p] j H.
-  destruct (seq_run_teq order g (fun j => teq_refl (p j))) as [_ X].
+  destruct (seq_run_teq order g p p (fun j => teq_refl (p j))) as [_ X].
   destruct (X j) as [_ Y]. destruct (Y H) as [E _]. exact E.
 Qed.
 
@@ -108,24 +110,24 @@ Qed.
 Definition at_most_one {G L} (p : pool G L) : Prop :=
   forall i, count_atomic (fst (p i)) <= 1.
 
-Lemma step_count : forall G L i (c : config G L) j,
+Lemma step_count : forall {G L : Type} i (c : config G L) j,
     count_atomic (fst (snd (step i c) j)) <= count_atomic (fst (snd c j)).
 Proof.
   intros G L i c j. destruct (fst (snd c i)) as [|a k] eqn:E.
   - rewrite (step_nil i c E). lia.
-  - rewrite (step_cons i c E). simpl.
+  - rewrite (step_cons i c _ _ E). simpl.
     destruct (Nat.eq_dec j i) as [->|Hne].
     + rewrite upd_same. simpl. rewrite E. simpl. lia.
     + rewrite upd_other by assumption. lia.
 Qed.
 
-Lemma at_most_one_step : forall G L i (c : config G L),
+Lemma at_most_one_step : forall {G L : Type} i (c : config G L),
     at_most_one (snd c) -> at_most_one (snd (step i c)).
 Proof.
   intros G L i c H j. eapply Nat.le_trans; [apply step_count|apply H].
 Qed.
 
-Lemma commit_order_in : forall G L (s : list nat) (c : config G L) j,
+Lemma commit_order_in : forall {G L : Type} (s : list nat) (c : config G L) j,
     In j (commit_order s c) -> 1 <= count_atomic (fst (snd c j)).
 Proof.
   induction s as [|i s IH]; intros c j H.
@@ -139,7 +141,7 @@ Proof.
 Qed.
 
 (* a thread that has committed does not commit again *)
-Lemma committed_not_again : forall G L (s : list nat) (c : config G L) i f k,
+Lemma committed_not_again : forall {G L : Type} (s : list nat) (c : config G L) i f k,
     at_most_one (snd c) -> fst (snd c i) = Atomic f :: k ->
     count_atomic k = 0 /\ ~ In i (commit_order s (step i c)).
 Proof.
@@ -148,10 +150,10 @@ Proof.
   { pose proof (Hone i) as X. rewrite E in X. simpl in X. lia. }
   split; [exact Hk|].
   intros Hin. apply commit_order_in in Hin.
-  rewrite (step_cons i c E) in Hin. simpl in Hin. rewrite upd_same in Hin. simpl in Hin. lia.
+  rewrite (step_cons i c _ _ E) in Hin. simpl in Hin. rewrite upd_same in Hin. simpl in Hin. lia.
 Qed.
 
-Lemma commit_order_nodup : forall G L (s : list nat) (c : config G L),
+Lemma commit_order_nodup : forall {G L : Type} (s : list nat) (c : config G L),
     at_most_one (snd c) -> NoDup (commit_order s c).
 Proof.
   induction s as [|i s IH]; intros c Hone.
@@ -160,12 +162,12 @@ Proof.
     + apply IH. apply at_most_one_step. exact Hone.
     + apply IH. apply at_most_one_step. exact Hone.
     + constructor.
-      * destruct (committed_not_again s c i Hone E) as [_ X]. exact X.
+      * destruct (committed_not_again s c i _ _ Hone E) as [_ X]. exact X.
       * apply IH. apply at_most_one_step. exact Hone.
 Qed.
 
 (* a thread that never commits keeps its atomic blocks *)
-Lemma not_committed_count : forall G L (s : list nat) (c : config G L) j,
+Lemma not_committed_count : forall {G L : Type} (s : list nat) (c : config G L) j,
     ~ In j (commit_order s c) ->
     count_atomic (fst (snd (run s c) j)) = count_atomic (fst (snd c j)).
 Proof.
@@ -173,19 +175,19 @@ Proof.
   - reflexivity.
   - rewrite run_cons. simpl in H. destruct (fst (snd c i)) as [|[f|f] k] eqn:E.
     + rewrite (step_nil i c E) in *. apply IH. exact H.
-    + rewrite (IH _ _ H). rewrite (step_cons i c E). simpl.
+    + rewrite (IH _ _ H). rewrite (step_cons i c _ _ E). simpl.
       destruct (Nat.eq_dec j i) as [->|Hne].
       * rewrite upd_same. simpl. rewrite E. reflexivity.
       * rewrite upd_other by assumption. reflexivity.
     + assert (Hne : j <> i) by (intros ->; apply H; left; reflexivity).
       assert (Hjo : ~ In j (commit_order s (step i c))) by (intros X; apply H; right; exact X).
-      rewrite (IH _ _ Hjo). rewrite (step_cons i c E). simpl.
+      rewrite (IH _ _ Hjo). rewrite (step_cons i c _ _ E). simpl.
       rewrite upd_other by assumption. reflexivity.
 Qed.
 
 (* ---- the invariant, stated from an arbitrary configuration on *)
 
-Lemma linearize : forall G L (s : list nat) (c : config G L),
+Lemma linearize : forall {G L : Type} (s : list nat) (c : config G L),
     at_most_one (snd c) ->
     finished (snd (run s c)) ->
     fst (seq_run (commit_order s c) c) = fst (run s c) /\
@@ -207,14 +209,14 @@ Proof.
       destruct (IH (step i c) Hone1 Hfin) as [A B].
       destruct c as [g p]. simpl in E.
       assert (Es : step i (g, p) = (g, upd p i (k, f (snd (p i))))).
-      { rewrite (step_cons i (g, p) E). reflexivity. }
+      { rewrite (step_cons i (g, p) _ _ E). reflexivity. }
       rewrite Es in *.
       set (o := commit_order s (g, upd p i (k, f (snd (p i))))) in *.
       assert (Hq : forall j, teq (p j) (upd p i (k, f (snd (p i))) j)).
       { intros j. destruct (Nat.eq_dec j i) as [->|Hne].
         - rewrite upd_same. intros g'. rewrite E. reflexivity.
         - rewrite upd_other by assumption. apply teq_refl. }
-      destruct (seq_run_teq o g Hq) as [T1 T2].
+      destruct (seq_run_teq o g _ _ Hq) as [T1 T2].
       split.
       * rewrite T1. exact A.
       * intros j. destruct (B j) as [Ba Bb]. destruct (T2 j) as [Ta _]. split.
@@ -225,12 +227,12 @@ Proof.
            ++ rewrite upd_other by assumption. reflexivity.
     + (* the atomic block of thread i commits *)
       pose proof (at_most_one_step i c Hone) as Hone1.
-      destruct (committed_not_again s c i Hone E) as [Hk Hnot].
+      destruct (committed_not_again s c i _ _ Hone E) as [Hk Hnot].
       destruct (IH (step i c) Hone1 Hfin) as [A B].
       destruct c as [g p]. simpl in E.
       set (r := f g (snd (p i))) in *.
       assert (Es : step i (g, p) = (fst r, upd p i (k, snd r))).
-      { rewrite (step_cons i (g, p) E). reflexivity. }
+      { rewrite (step_cons i (g, p) _ _ E). reflexivity. }
       rewrite Es in *.
       set (o := commit_order s (fst r, upd p i (k, snd r))) in *.
       rewrite seq_run_cons.
@@ -244,14 +246,15 @@ Proof.
         - rewrite !upd_same. intros g'. simpl.
           rewrite (complete_locals k g' (snd r) Hk). reflexivity.
         - rewrite !upd_other by assumption. apply teq_refl. }
-      destruct (seq_run_teq o (fst r) Hq) as [T1 T2].
+      destruct (seq_run_teq o (fst r) _ _ Hq) as [T1 T2].
       split.
-      * rewrite T1. exact A.
+      * etransitivity; [exact T1|exact A].
       * intros j. destruct (B j) as [Ba Bb]. destruct (T2 j) as [Ta Tb]. split.
         -- intros Hin. destruct (in_dec Nat.eq_dec j o) as [Hjo|Hjo].
-           ++ rewrite (Ta Hjo). apply Ba. exact Hjo.
+           ++ etransitivity; [exact (Ta Hjo)|exact (Ba Hjo)].
            ++ destruct Hin as [Heq|Hin]; [|contradiction]. subst j.
-              destruct (Tb Hjo) as [Ea _]. rewrite Ea. rewrite upd_same.
+              destruct (Tb Hjo) as [Ea _]. rewrite upd_same in Ea.
+              etransitivity; [exact Ea|].
               pose proof (Bb Hjo) as X. simpl in X. rewrite upd_same in X. simpl in X.
               pose proof (Hfin i) as Y.
               destruct (snd (run s (fst r, upd p i (k, snd r))) i) as [cd lc].
@@ -265,7 +268,7 @@ Qed.
 (* ---- C08, the positive half *)
 
 Theorem atomic_linearizable :
-  forall (G L : Type) (n : nat) (g0 : G) (p0 : pool G L) (sched : list nat),
+  forall {G L : Type} (n : nat) (g0 : G) (p0 : pool G L) (sched : list nat),
     (forall i, i < n -> single_atomic (fst (p0 i))) ->     (* threads 0..n-1: one block each *)
     (forall i, n <= i -> fst (p0 i) = []) ->                (* no other thread *)
     finished (snd (run sched (g0, p0))) ->                  (* the run completes *)
@@ -309,7 +312,7 @@ Qed.
 
 (* "some sequential order of the same calls produces exactly this outcome" *)
 Corollary atomic_linearizable_exists :
-  forall (G L : Type) (n : nat) (g0 : G) (p0 : pool G L) (sched : list nat),
+  forall {G L : Type} (n : nat) (g0 : G) (p0 : pool G L) (sched : list nat),
     (forall i, i < n -> single_atomic (fst (p0 i))) ->
     (forall i, n <= i -> fst (p0 i) = []) ->
     finished (snd (run sched (g0, p0))) ->
